@@ -32,6 +32,11 @@ type davNames struct {
 	deleteOps                                      map[int]string // level -> backend op ("" = refused 403); -1 key = every level
 }
 
+func isIntKind(n *types.Named) bool {
+	b, ok := n.Underlying().(*types.Basic)
+	return ok && b.Info()&types.IsInteger != 0
+}
+
 func davNamesOf(pkg string) davNames {
 	if pkg == pkgCaldav {
 		return davNames{pkg: pkg, short: "caldav", homeSetPath: "CalendarHomeSetPath", listColl: "ListCalendars", getColl: "GetCalendar", getObj: "GetCalendarObject",
@@ -59,7 +64,7 @@ func adapterModels(c *Ctx, dn davNames, failing bool) ModelFn {
 		// the level classifier: a method of the adapter taking the path and
 		// returning the package's resourceType
 		if f := cc.StaticCallee(); f != nil && f.Signature.Recv() != nil && res.Len() == 1 {
-			if n := namedOf(res.At(0).Type()); n != nil && n.Obj().Name() == "resourceType" && n.Obj().Pkg().Path() == dn.pkg {
+			if n := namedOf(res.At(0).Type()); n != nil && !n.Obj().Exported() && n.Obj().Pkg().Path() == dn.pkg && isIntKind(n) {
 				in.effect("classify", site.Pos(), args[len(args)-1])
 				return kInt(int64(in.chooseLabeled("level", levelNames))), true
 			}
